@@ -5,15 +5,22 @@
   (one field per family) and reset it on their own `case` header.
 -/
 import JrpcVerif.Driver.TextFamily
+import JrpcVerif.Driver.RegistryFamily
 import JrpcVerif.Driver.ParamsFamily
+import JrpcVerif.Driver.BuildFamily
 import JrpcVerif.Driver.HostFilterFamily
 import JrpcVerif.Driver.ClientFamily
+import JrpcVerif.Driver.ConnFamily
+import JrpcVerif.Driver.SubServerFamily
 open Jrpc Jrpc.Driver
 
 structure St where
   dummy : Nat := 0
+  reg : RegistrySt := {}
   -- one field per stateful family, e.g.  reg : RegistrySt := {}
+  conn : ConnSt := {}
   client : ClientSt := {}
+  subs : SubSt := {}
 
 def step (st : St) (line : String) : St × String :=
   let ws := (line.trimAscii.toString.splitOn " ").filter (· ≠ "")
@@ -23,11 +30,23 @@ def step (st : St) (line : String) : St × String :=
   match paramsVerb ws with
   | some out => (st, out)
   | none =>
+  match buildVerb ws with
+  | some out => (st, out)
+  | none =>
   match hostFilterVerb ws with
   | some out => (st, out)
   | none =>
   match clientVerb st.client ws with
   | some (s', out) => ({ st with client := s' }, out)
+  | none =>
+  match connVerb st.conn ws with
+  | some (s', out) => ({ st with conn := s' }, out)
+  | none =>
+  match subsVerb st.subs ws with
+  | some (s', out) => ({ st with subs := s' }, out)
+  | none =>
+  match registryVerb st.reg ws with
+  | some (s', out) => ({ st with reg := s' }, out)
   | none =>
   -- stateful families: add one arm each, e.g.
   --   match registryVerb st.reg ws with
